@@ -1,0 +1,1 @@
+//! Hooks for property C11 (empty until needed).
